@@ -495,6 +495,30 @@ func render(rv reflect.Value) *V {
 	panic("render: value outside the universe: " + rv.Type().String())
 }
 
+// does the value use only field names / map keys of the symbol table (a result that does not cannot be sent to
+// the model: it is a wrong result by itself, e.g. an unconverted map keyed by joined paths)
+func (v *V) knownSyms() bool {
+	if v == nil {
+		return true
+	}
+	if !v.P.knownSyms() {
+		return false
+	}
+	for k, e := range v.F {
+		if v.K == "map" && v.IK {
+			if _, err := strconv.Atoi(k); err != nil {
+				return false
+			}
+		} else if _, ok := symIdx[k]; !ok {
+			return false
+		}
+		if !e.knownSyms() {
+			return false
+		}
+	}
+	return true
+}
+
 // keys in the order of their numbers on the Coq side (symbol index, or the integer for int keys)
 func keysBySym(m map[string]*V, intKeys bool) []string {
 	ks := make([]string, 0, len(m))
